@@ -172,6 +172,7 @@ VH_ENTRY vh_runfsm_long() {
 // a scripted stub that moves the cursor to an arbitrary slot and sets the high-water flag arbitrarily; the loop bookkeeping is compared with
 // the documented semantics: the engine resumes at the position the rule returned, unless MaxRuleLoop consecutive applications failed to
 // reach the high-water mark, in which case it jumps to the high-water slot.
+#ifdef VH_RULE_LOOP        /* only the rule-loop query links the findNDoRule stub */
 #ifndef SCRIPT
 #define SCRIPT 5
 #endif
@@ -220,3 +221,4 @@ VH_ENTRY vh_rule_loop() {
   ASSERT(calls == vh_calls, "the loop ends exactly when a rule returns past the end");
   VH_END();
 }
+#endif
